@@ -497,7 +497,10 @@ class Run:
                     p.add_cleanup(late_cleanup)
                 except Exception:  # noqa
                     self.cleanups_other['late'] = -1
-        p.add_cleanup(raising_cleanup)      # a failing cleanup must not keep the others from running
+        import functools
+        # a failing cleanup must not keep the others from running - whatever kind of callable it is (a functools.partial has
+        # neither __name__ nor __qualname__, like the library's own unsubscription cleanups)
+        p.add_cleanup(functools.partial(raising_cleanup))
         p.add_cleanup(last_cleanup)
         # who drives the process: the library's `step_until_terminated()` or a loop of the caller's own around the public `step()`
         # (a scheduler that does something between two steps) - the same thing as far as any property is concerned
